@@ -179,6 +179,7 @@ class Prop(object):
             u.append(('keyswap', {'signer': signer}))
             u.append(('carried', {'signer': signer}))
             u.append(('confusion', {'signer': signer}))
+            u.append(('sequence', {'signer': signer, 'depth': 3 if tier == 'quick' else 4}))
         if tier == 'thorough':
             for signer in B2_SIGNERS:
                 for scn in S.SCENARIOS:
@@ -481,6 +482,41 @@ class Prop(object):
                                 'signature by subkey %s relabelled as issued by subkey %s' % (skid, other_id))
         r.dim('signer', signer)
         r.samples.append({'keyswap': signer})
+        return r
+
+    def c_sequence(self, case):
+        """Every sequence (up to the depth bound) of verifications on ONE live key with the SAME parsed signature objects: good and forged pairs in
+        every order - a verdict is a function of (signature, subject, key), never of what was verified before."""
+        import itertools
+        import pgpy
+        from pgpy.constants import HashAlgorithm
+        r = Res()
+        key, raw = S.signer_cert(case['signer'])
+        pub = key.pubkey
+        doc_a, doc_b = b'sequence document A', b'sequence document B (another one)'
+        kw = dict(hash=HashAlgorithm.SHA256, created=K.dt(S.SIG_T))
+        sig_a = pgpy.PGPSignature.from_blob(bytes(key.sign(doc_a, **kw)))
+        sig_b = pgpy.PGPSignature.from_blob(bytes(key.sign(doc_b, **kw)))
+        body = bytearray(wire.read_packet(bytes(sig_a))['body'])
+        body[8] ^= 0x01                                   # inside the creation-time subpacket of the hashed area
+        sig_f = pgpy.PGPSignature.from_blob(wire.packet(2, bytes(body)))
+        menu = {'A/A': (sig_a, doc_a, True), 'A/B': (sig_a, doc_b, False), 'B/B': (sig_b, doc_b, True), 'B/A': (sig_b, doc_a, False), 'Aflipped/A': (sig_f, doc_a, False)}
+        names = sorted(menu)
+        seqs = [tuple(case['only'])] if case.get('only') else [t for k in range(1, case['depth'] + 1) for t in itertools.product(names, repeat=k)]
+        for seq in seqs:
+            r.states += 1
+            for step, nm in enumerate(seq):
+                sg, subj, want = menu[nm]
+                r.transitions += 1
+                v = self._verdict(pub, subj, sg)
+                r.outcomes['sequence:' + v.split(':')[0]] += 1
+                if (v == 'truthy') != want:
+                    cls = 'accepts-forgery' if v == 'truthy' else 'rejects-valid'
+                    r.viol(cls, {'mut': 'sequence', 'item': nm, 'first_step': step == 0}, {'signer': case['signer'], 'depth': case['depth'], 'only': list(seq[:step + 1])},
+                           'verifications %s on one key with the same signature objects: #%d (%s) is %s' % (list(seq[:step + 1]), step + 1, nm, v))
+                    break
+        r.dim('signer', case['signer'])
+        r.samples.append({'sequence': list(seqs[-1])})
         return r
 
     def c_verifier_state(self, case):
